@@ -17,6 +17,13 @@ set_option linter.unusedSectionVars false
 namespace PyGam
 
 /-! ## quantile checks -/
+
+/-- the rule of the code, in *any* comparison structure (no order axioms: it also reads correctly for IEEE doubles,
+where every comparison with NaN is false): a level is accepted iff both `0 < q` and `q < 1` hold -/
+theorem badQuantile_eq_false_iff_lt {β : Type} [Zero β] [One β] [Add β] [Sub β] [Mul β] [Div β] [LE β] [DecidableLE β]
+    [LT β] [DecidableLT β] (q : β) : badQuantile q = false ↔ ((0 : β) < q ∧ q < (1 : β)) := by
+  simp [badQuantile]
+
 section field
 variable {α : Type} [Field α] [LinearOrder α] [IsStrictOrderedRing α]
 
@@ -27,7 +34,8 @@ theorem quantilesOfWidth_eq (w : α) : quantilesOfWidth w = [(1 - w) / 2, (1 + w
   field_simp; ring
 
 theorem badQuantile_iff (q : α) : badQuantile q = true ↔ (1 ≤ q ∨ q ≤ 0) := by
-  simp [badQuantile]
+  simp only [badQuantile, Bool.not_eq_true', Bool.and_eq_false_iff, decide_eq_false_iff_not, not_lt]
+  exact Or.comm
 
 theorem badQuantile_eq_false_iff (q : α) : badQuantile q = false ↔ (0 < q ∧ q < 1) := by
   rw [← Bool.not_eq_true, badQuantile_iff]; constructor
